@@ -483,6 +483,7 @@ func run(c *mc.Ctx) {
 		}
 	})
 	c.Add("nontrivial", nt)
+	c.Extra("client_executions_repeated_on_a_fresh_client", atomic.LoadInt64(&clih.Exhausted))
 	// 2) limit enforcement grid (buffered: over the limit is always 413)
 	w := getW()
 	for _, limit := range []int{8, 100, 4096} {
